@@ -30,7 +30,12 @@ TECHNIQUE = (
     "reference model, invalid values must be rejected naming their source, every parsed config is dumped to JSON and reloaded, "
     "and the keys printed by template() are compared with the file keys that are actually honoured; the file generator also writes "
     "files that define only the leading parts of an option's key as something that does not lead to the key (scalar, array, array of "
-    "tables, table without the next part): such a file holds no value for the option, which must then resolve from the next source"
+    "tables, table without the next part): such a file holds no value for the option, which must then resolve from the next source; "
+    "and every command really stores its configuration: its real entry_point() (run() replaced by a no-op) is run with an artifacts "
+    "directory and a database in a child process per environment of the process (UTF-8 / locale encoding that is not UTF-8), with string "
+    "and path options holding generated texts (ASCII, Latin-1, other BMP, astral, characters JSON escapes); META.json is read back the way "
+    "`gallia script rerun --file` reads it in that same environment, the run_meta row is read from the database, and both are fed to the "
+    "command's config type and compared with the configuration of the run"
 )
 LEVEL_TEXT = (
     "Exploration: all commands found at run time in load_commands() (34 in the pinned tree). Quick: four commands with all their "
@@ -41,7 +46,10 @@ LEVEL_TEXT = (
     "the tree x every intermediate position of the key x all 17 forms on one (quick) / six (thorough) commands declaring the key). "
     "The quick plan also contains every (kind of command-line argument: flag pair / value list / literal choice / enum / single value) x "
     "(source) pair that exists in the tree, preferably on an option whose field metadata is intact at run time. "
-    "Held = held on those parses, for the dependency versions installed in this image."
+    "Stored runs: every command x two environments of the process x two (quick) / twelve (thorough) configurations whose string options "
+    "take texts of every character class from the command line, GALLIA_<NAME> and gallia.toml (in the non-UTF-8 environment texts outside "
+    "the locale encoding come from the command line and from gallia.toml, which is UTF-8 by the TOML specification; variables stay ASCII). "
+    "Held = held on those parses and runs, for the dependency versions installed in this image."
 )
 LEVEL_NOTE = (
     "Trusted: vf/models/settings.py (declaration reader that evaluates the Field(...) statements of the config class bodies, value "
@@ -57,7 +65,12 @@ RULE = (
     "range expressions (Ranges, Ranges2D), enum members by name / decimal value / hex value, URIs of the scheme the command accepts, "
     "paths, floats, strings, booleans as --x/--no-x and true/false/1/0, lists on CLI and as TOML arrays; values differ per source so "
     "the winner is identifiable; non-trivial = the expected winner's value differs from every other value in play; distinct = "
-    "distinct (command, option, sources, draw, variant)"
+    "distinct (command, option, sources, draw, variant); stored-run case = (command, environment of the process, draw): the configuration "
+    "is accepted in the checking process, the same command line / variables / file are parsed in the child, entry_point() runs there with "
+    "--artifacts-base, --db, --no-hooks (hook scripts are stored, not executed) and a no-op run(); expected: exactly one META.json and one "
+    "run_meta row, each readable in the environment that wrote it, naming the command's class, and CONFIG_TYPE(**stored) dumps equal to the "
+    "configuration of the run; the effective value of every text option in the child equals the given text (a gallia.toml value holding "
+    "characters outside the locale encoding included)"
 )
 ASSUMPTIONS = [
     "decided for the installed dependency versions (pydantic 2.13.x); uv.lock pins 2.11.1 and the verdict may differ there",
@@ -82,6 +95,13 @@ ASSUMPTIONS = [
     "'the matching key of gallia.toml' is read as TOML reads a dotted key: section.name has a value iff every part of the section names "
     "a table and the last table holds name; a scalar, array or array of tables at an intermediate position means the file provides "
     "nothing for the option (it is neither a value nor an invalid value of that option)",
+    "stored runs replace the command's run() by a no-op (storing the configuration is done by BaseCommand.entry_point around run()); the "
+    "stored META.json is read by gallia's own Rerunner.file() in the environment that wrote it, the database row with sqlite3",
+    "the non-UTF-8 environment is LC_ALL=C with PYTHONUTF8=0 and PYTHONCOERCECLOCALE=0 (locale encoding ASCII), the portable stand-in for "
+    "latin-1/cp1252 hosts; there, paths and environment variables are kept ASCII (bytes of the locale by construction of the OS interface) and "
+    "a gallia.toml value outside the locale encoding is a file value like any other (TOML documents are UTF-8 by definition): it must become the "
+    "effective value when command line and environment do not decide; a refusal is attributed to it if the same file with ASCII values at the "
+    "same keys is accepted in that environment",
 ]
 EXHAUSTIVE = {"quick": False, "thorough": False}
 EXHAUSTIVE_NOTE = "exhaustive sub-space: commands x options x source subsets (thorough tier); values are sampled"
@@ -217,6 +237,10 @@ def shards(tier: str, seed: int) -> list[dict[str, Any]]:
         for i, (path, _) in enumerate(cmds):
             out.append({"mode": "command", "index": i, "path": list(path), "options": plan[i], "rounds": 1, "full_every": 25})
     out.append({"mode": "template"})
+    # the run really stores its configuration: one child process per environment (and part of the command tree)
+    sparts, scases = (4, STORED_CASES_THOROUGH) if tier == "thorough" else (1, STORED_CASES_QUICK)
+    for env_name in STORED_ENVS:
+        out += [{"mode": "stored", "env": env_name, "part": k, "parts": sparts, "cases": scases} for k in range(sparts)]
     return out
 
 
@@ -246,6 +270,23 @@ def required_reach(tier: str) -> dict[str, int]:
         need[f"parserkind.{pk}.{src}.exercised"] = 1
     for pk, src in PARSER_PAIRS_EFFECTIVE:
         need[f"parserkind.{pk}.{src}.effective"] = 1
+    # runs that really stored their configuration (entry_point() with artifacts directory and database), per environment of the process,
+    # with string options holding every class of characters - in particular characters outside the locale encoding of the process
+    for env_name in STORED_ENVS:
+        need[f"stored.cases.{env_name}"] = n + n // 2
+        need[f"stored.meta-json.judged.{env_name}"] = n + n // 2
+        need[f"stored.database.judged.{env_name}"] = n + n // 2
+        for c in TEXT_POOLS:
+            need[f"stored.text.{c}.{env_name}"] = 5
+    need["stored.text.outside-locale-encoding.non-utf8-locale"] = n
+    need["stored.meta-json.judged.text-outside-locale-encoding"] = n
+    need["stored.database.judged.text-outside-locale-encoding"] = n
+    need["stored.path.non-ascii.utf8-locale"] = 10
+    for src in ("cli", "env", "file"):
+        need[f"stored.text-source.{src}.utf8-locale"] = 5
+    need["stored.text-source.cli.non-utf8-locale"] = n
+    need["stored.text-source.file.non-utf8-locale"] = n // 2
+    need["stored.file-text.outside-locale-encoding.non-utf8-locale"] = n // 2
     return need
 
 
@@ -1093,6 +1134,443 @@ def reload_child(path: str) -> None:
     print(json.dumps(out))
 
 
+# ------------------------------------------------------------------------------------------------
+# The run really stores its configuration.  'The configuration stored in META.json and in the database, fed back to the same command,
+# yields an equal configuration' is a statement about what a run leaves behind, so here the real entry_point() of every command is run
+# (its run() replaced by a no-op: no ECU is needed to store a configuration) with --artifacts-base and --db, in a child process that
+# has an environment of its own; afterwards META.json is read the way `gallia script rerun --file` reads it (Rerunner.file(), in that
+# same environment), the run_meta row is read from the database, and both are fed to the command's CONFIG_TYPE.
+# Dimension 1: the environment of the process - a UTF-8 one and one whose locale encoding is not UTF-8 (portable stand-in for the
+# latin-1/cp1252 hosts: LC_ALL=C with Python's UTF-8 mode and C-locale coercion off).  Dimension 2: the characters a string / path
+# option holds - ASCII, Latin-1, other BMP, astral, characters JSON must escape.
+STORED_ENVS: dict[str, dict[str, str]] = {
+    "utf8-locale": {"PYTHONUTF8": "1"},
+    "non-utf8-locale": {"PYTHONUTF8": "0", "PYTHONCOERCECLOCALE": "0", "LC_ALL": "C", "LANG": "C"},
+}
+TEXT_POOLS: dict[str, str] = {
+    "ascii": "abcxyzXYZ0189_./=:+,;#%(){}[]<>|&*?!~@^$'",
+    "latin1": "\u00e4\u00f6\u00fc\u00df\u00e9\u00e8\u00f1\u00e7\u00c5\u00f8\u00a3\u00a7\u00b0\u00b5\u00ff\u00a0",
+    "bmp": "\u2013\u2014\u20ac\u03a9\u03bb\u0416\u044f\u6e2c\u8a66\u3042\ud55c\u05e9\u0301\u2028\ufeff\uffed\u0152\u201c",
+    "astral": "\U0001f600\U0001d518\U0001f697\U00010348\U0010fffd",
+    "json-escaped": "\"\\\t\n\r\x1b\x7f/",
+}
+NON_ASCII_CLASSES = ("latin1", "bmp", "astral")
+PATH_POOL = "\u00e4\u00f6\u00fc\u00e9\u00f1\u03a9\u03bb\u0416\u6e2c\u8a66\U0001f600"
+STORED_CASES_QUICK = 2
+STORED_CASES_THOROUGH = 12
+
+
+def gen_text(rng: random.Random, classes: list[str]) -> str:
+    """A text holding at least one character of every class in `classes` (never starting with '-': not a flag)."""
+    words = []
+    for c in classes:
+        pool = TEXT_POOLS[c]
+        w = "".join(rng.choice(pool) for _ in range(rng.randint(1, 4)))
+        words.append(rng.choice("abcdefgh") + w + rng.choice(["", "q", "7"]))
+    rng.shuffle(words)
+    return "v" + rng.choice([" ", "", " ; "]).join(words)
+
+
+def text_classes(t: str) -> list[str]:
+    out = set()
+    for ch in t:
+        o = ord(ch)
+        if ch in TEXT_POOLS["json-escaped"][:-1]:
+            out.add("json-escaped")
+        elif o < 0x80:
+            out.add("ascii")
+        elif o < 0x100:
+            out.add("latin1")
+        elif o < 0x10000:
+            out.add("bmp")
+        else:
+            out.add("astral")
+    return sorted(out)
+
+
+def run_stored(ctx: Any, params: dict[str, Any]) -> None:
+    import subprocess
+    import sys as _sys
+
+    env_name = params["env"]
+    cmds = _commands()
+    scratch = ctx.mkscratch() / f"stored-{env_name}-{params['part']}"
+    scratch.mkdir(parents=True, exist_ok=True)
+    cases: list[dict[str, Any]] = []
+    for i, (path, cmd) in enumerate(cmds):
+        if params.get("indices") is not None and i not in params["indices"]:
+            continue
+        if i % params["parts"] != params["part"]:
+            continue
+        ctx.reach("stored.commands.enumerated")
+        h = Harness(ctx, path, cmd, 0)
+        if "pre_hook" not in h.decls or "artifacts_base" not in h.decls or "db" not in h.decls:
+            ctx.reach("stored.uncovered.no-generic-options")
+            continue
+        anchor = OptionRun(h, h.decls["pre_hook"], f"{ctx.seed}/stored/{h.cmdname}", 1)
+        found = anchor.find_plan()
+        if found is None:
+            ctx.reach("stored.uncovered.no-plan")
+            continue
+        plan, base, _ = found
+        for j in range(params["cases"]):
+            case = stored_case(ctx, h, plan, list(base), env_name, j, scratch / f"c{i}-{j}", len(cases))
+            if case is not None:
+                case["index"] = i
+                cases.append(case)
+    if not cases:
+        return
+    spec_file, out_file = scratch / "spec.json", scratch / "out.jsonl"
+    spec_file.write_text(json.dumps({"env": env_name, "cases": [{k: v for k, v in c.items() if not k.startswith("_")} for c in cases]}))
+    env = {k: v for k, v in os.environ.items() if not k.startswith(("LC_", "GALLIA_", "LANG", "PYTHONIOENCODING", "PYTHONUTF8", "PYTHONCOERCECLOCALE")) and v.isascii()}
+    env.update(STORED_ENVS[env_name])
+    env["PYTHONHASHSEED"] = "1"
+    try:
+        subprocess.run([_sys.executable, "-m", "vf.checks.c18", "--stored-child", str(spec_file), str(out_file)], cwd=str(Path(__file__).resolve().parents[2]),
+                       capture_output=True, timeout=300 if ctx.tier == "quick" else 1500, env=env)
+    except subprocess.TimeoutExpired:
+        ctx.reach("stored.harness.child-timeout")
+    results: dict[int, dict[str, Any]] = {}
+    if out_file.exists():
+        for line in out_file.read_bytes().splitlines():
+            try:
+                r = json.loads(line)
+                results[r["id"]] = r
+                if r["id"] == -1:
+                    ctx.reach("stored.harness.child-case-error")
+            except Exception:
+                ctx.reach("stored.harness.bad-result-line")
+    for case in cases:
+        r = results.get(case["id"])
+        if r is None:  # the child died or ran out of time before this case: a harness problem, not a verdict
+            ctx.reach("stored.harness.no-result")
+            continue
+        judge_stored(ctx, env_name, cmds[case["index"]][1], case, r)
+
+
+def stored_case(ctx: Any, h: Harness, plan: Plan, base: list[tuple[str, list[str], list[str]]], env_name: str, j: int, adir: Path, ident: int) -> dict[str, Any] | None:
+    """One valid configuration of the command with an artifacts directory, a database and string options that hold generated texts."""
+    rng = random.Random(f"{ctx.seed}/stored/{env_name}/{h.cmdname}/{j}")
+    utf8 = env_name == "utf8-locale"
+    # which classes of characters: every case of the non-UTF-8 environment but each fourth holds a character outside that locale
+    pure_ascii = j % 4 == 3
+    special = [] if pure_ascii else [NON_ASCII_CLASSES[(j + len(h.cmdname)) % 3]] + [c for c in NON_ASCII_CLASSES if rng.random() < 0.3]
+    tag = "".join(rng.choice(PATH_POOL) for _ in range(rng.randint(1, 3))) if utf8 and not pure_ascii and rng.random() < 0.7 else "p"
+    adir = adir.with_name(adir.name + "-" + tag)
+    adir.mkdir(parents=True, exist_ok=True)
+    paths = {"artifacts_base": adir / "artifacts", "db": adir / f"runs-{tag}.sqlite"}
+    if rng.random() < 0.5 and "lock_file" in h.decls:
+        paths["lock_file"] = adir / f"lock-{tag}"
+    frags = {n: (n, p, o) for n, p, o in base}
+    for n, pth in paths.items():
+        frags[n] = (n, [], [h.decls[n].flag, str(pth)])
+    if "hooks" in h.decls:
+        frags["hooks"] = ("hooks", [], ["--no-hooks"])  # the hook scripts are stored, not executed
+    candidates = [d for d in h.decls.values() if d.spec.kind == "str" and d.spec.cli_ok and not d.hidden and not d.positional and d.name in h.fields]
+    candidates.sort(key=lambda d: (d.name not in ("pre_hook", "post_hook"), d.name))
+    not_free: set[str] = h.__dict__.setdefault("stored_not_free", set())  # options a validator restricts (--oem ...): found once per command
+    drawn: list[tuple[S.Decl, str, str]] = []
+    for d in candidates:
+        classes = sorted(set(special + [c for c in ("ascii", "json-escaped") if rng.random() < 0.5])) or ["ascii"]
+        text = gen_text(rng, classes)
+        # in the non-UTF-8 environment a text outside the locale is given in-process (command line) or in gallia.toml (a TOML document is
+        # UTF-8 whatever the locale says); environment variables are bytes of the locale there and stay ASCII
+        allowed = [s for s in option_sources(d) if s in ("cli", "file") or utf8 or text.isascii()]
+        if allowed and d.name not in not_free:
+            drawn.append((d, rng.choice(allowed), text))
+
+    def place(state: tuple[dict[str, Any], dict[str, str], dict[str, str]], d: S.Decl, src: str, text: str) -> tuple[dict[str, Any], dict[str, str], dict[str, str]] | None:
+        fr, ev, en = dict(state[0]), dict(state[1]), dict(state[2])
+        if src == "cli":
+            fr[d.name] = (d.name, [], [d.flag, text])
+            return fr, ev, en
+        if d.name in fr:
+            if not d.has_default:
+                return None  # required option: stays on the command line
+            del fr[d.name]
+        if src == "env":
+            ev[d.env_name] = text
+        else:
+            en[str(d.file_key)] = S.toml_str(text)
+        return fr, ev, en
+
+    def accepted(state: tuple[dict[str, Any], dict[str, str], dict[str, str]], want: dict[str, str]) -> bool:
+        out = h.parse(h.argv(list(state[0].values())), state[1], S.render_toml(state[2]), allow_full=False)
+        return out.kind == "ok" and all(getattr(out.cfg, n, None) == t for n, t in want.items())
+
+    texts: dict[str, tuple[str, str]] = {}  # option -> (source, text)
+    state: tuple[dict[str, Any], dict[str, str], dict[str, str]] = (frags, {}, {})
+    # all at once (one parse); only if that is refused, option by option to find the one that is not free
+    whole: Any = state
+    for d, src, text in drawn:
+        whole = place(whole, d, src, text) or whole
+    placed = {d.name: (src, text) for d, src, text in drawn if (src == "cli" and d.name in whole[0]) or (src == "env" and d.env_name in whole[1]) or (src == "file" and str(d.file_key) in whole[2])}
+    if placed and accepted(whole, {n: t for n, (_, t) in placed.items()}):
+        state, texts = whole, placed
+    else:
+        for d, src, text in drawn:
+            trial = place(state, d, src, text)
+            if trial is None:
+                continue
+            if accepted(trial, {d.name: text}):
+                state = trial
+                texts[d.name] = (src, text)
+            else:
+                not_free.add(d.name)
+                ctx.reach("stored.text-option-not-free")  # a validator restricts the option or its metadata is lost: judged elsewhere
+    frags, env, entries = state
+    if not texts:
+        ctx.reach("stored.uncovered.no-text-option")
+        return None
+    argv = h.argv(list(frags.values()))
+    # control for the attribution of a refusal: the same file with ASCII values at the same keys
+    control = {k: (lit if lit.isascii() else S.toml_str("ascii-" + str(n))) for n, (k, lit) in enumerate(entries.items())}
+    return {"id": ident, "path": list(h.path), "argv": argv, "env": env, "toml": S.render_toml(entries), "toml_control": S.render_toml(control), "dir": str(adir),
+            "artifacts_base": str(paths["artifacts_base"]), "db": str(paths["db"]), "texts": {n: t for n, (_, t) in texts.items()},
+            "_sources": {n: s for n, (s, _) in texts.items()}, "_case": j, "_cmdname": h.cmdname}
+
+
+def judge_stored(ctx: Any, env_name: str, cmd: type, case: dict[str, Any], r: dict[str, Any]) -> None:
+    cmdname = case["_cmdname"]
+    enc_utf8 = str(r.get("locale_encoding", "")).lower().replace("-", "").replace("_", "") in ("utf8", "cputf8")
+    if enc_utf8 != (env_name == "utf8-locale"):
+        ctx.reach("stored.harness.environment-not-established")  # e.g. no such locale on this host: nothing is judged
+        return
+    wit = {"command": cmdname, "option": "pre_hook", "variant": "stored-run", "environment": env_name, "environment_vars": STORED_ENVS[env_name],
+           "locale_encoding": r.get("locale_encoding"), "argv": case["argv"], "env": case["env"], "toml": case["toml"], "stored_case": case["_case"],
+           "texts": {n: ascii(t) for n, t in case["texts"].items()}, "sources": case["_sources"], "entry_point": r.get("entry_point"),
+           "meta_size": r.get("meta_size"), "vseed": f"{ctx.seed}/stored/{cmdname}"}
+    ctx.case((cmdname, env_name, case["_case"], "stored-run"))
+    ctx.reach(f"stored.cases.{env_name}")
+    # values that gallia.toml gives to an option and that hold characters outside the locale encoding of the process: a file value like
+    # any other ('otherwise the one from the matching key of gallia.toml'); TOML documents are UTF-8 by definition
+    file_outside = [n for n, t in case["texts"].items() if case["_sources"][n] == "file" and not locale_encodable(t, str(r.get("locale_encoding", "")))]
+    if file_outside:
+        ctx.reach(f"stored.file-text.outside-locale-encoding.{env_name}")
+    if r.get("parse") != "ok":
+        pr = r.get("parse") if isinstance(r.get("parse"), dict) else {}
+        if file_outside and pr.get("control_ok"):
+            # the same command line and variables with a file that holds ASCII values at the same keys are accepted in that environment
+            ctx.violation(f"file/non-ascii-value-not-honoured/{env_name}", "a gallia.toml value with characters outside the locale encoding of the process is refused instead of becoming the effective value",
+                          {**wit, "option": file_outside[0], "file_key": str(S.declared(cmd.CONFIG_TYPE)[file_outside[0]].file_key), "expected": ascii(case["texts"][file_outside[0]]), "parse": pr})
+            return
+        # the very same command line / file / variables were accepted in this process: the environment made the difference
+        ctx.violation(f"stored/valid-configuration-refused/{env_name}", "a configuration that is accepted in one environment is refused in another", {**wit, "parse": r.get("parse")})
+        return
+    for n, t in case["texts"].items():
+        got = r["texts"].get(n)
+        if got != t and n in file_outside:
+            ctx.violation(f"file/non-ascii-value-not-honoured/{env_name}", "a gallia.toml value with characters outside the locale encoding of the process does not become the effective value",
+                          {**wit, "option": n, "file_key": str(S.declared(cmd.CONFIG_TYPE)[n].file_key), "expected": ascii(t), "got": ascii(got)})
+            return
+        if got != t:
+            ctx.violation(f"precedence/{case['_sources'][n]}-wrong-value/type:str", f"the effective value is not the one given by {case['_sources'][n]}", {**wit, "option": n, "expected": ascii(t), "got": ascii(got)})
+            return
+    classes = sorted({c for t in case["texts"].values() for c in text_classes(t)})
+    for c in classes:
+        ctx.reach(f"stored.text.{c}.{env_name}")
+    if r.get("outside_locale"):
+        ctx.reach(f"stored.text.outside-locale-encoding.{env_name}")
+    if not str(case["dir"]).isascii():
+        ctx.reach(f"stored.path.non-ascii.{env_name}")
+    for s in set(case["_sources"].values()):
+        ctx.reach(f"stored.text-source.{s}.{env_name}")
+    if "construct" in r:
+        ctx.reach("stored.uncovered.command-not-instantiable")
+        return
+    ep = r.get("entry_point") or {}
+    ctx.reach("stored.entry-point.returned" if "rc" in ep else "stored.entry-point.raised")
+    ctx.trace(("stored", env_name, tuple(classes), "rc" in ep, r.get("meta_files"), r.get("db_rows")))
+    ctx.sample({"command": cmdname, "stored_run": env_name, "texts": wit["texts"], "entry_point": ep, "meta": (r.get("meta") or {}).get("error", "fed back"), "db": (r.get("db") or {}).get("error", "fed back")})
+    original = r["config"]
+    expected_name = f"{cmd.__module__}.{cmd.__name__}"
+    for where, nfound, fb in (("meta-json", r.get("meta_files"), r.get("meta")), ("database", r.get("db_rows"), r.get("db"))):
+        ctx.reach(f"stored.{where}.judged.{env_name}")
+        if r.get("outside_locale"):
+            ctx.reach(f"stored.{where}.judged.text-outside-locale-encoding")
+        w = {**wit, "where": where}
+        if nfound != 1 or fb is None:
+            ctx.violation(f"stored/{where}/missing/{env_name}", f"the run did not leave exactly one stored configuration ({where})", {**w, "found": nfound})
+            continue
+        if "error" in fb:
+            w["error"] = fb["error"]
+            if fb.get("stage") == "read":
+                ctx.violation(f"stored/{where}/not-readable/{env_name}", f"what the run stored ({where}) cannot be read back in the environment that wrote it", w)
+            else:
+                ctx.violation(f"stored/{where}/reload-raises/{fb.get('type')}", f"the configuration stored by the run ({where}) cannot be fed back to the command", w)
+            continue
+        if fb.get("command") != expected_name or not fb.get("same_command"):
+            ctx.violation(f"stored/{where}/wrong-command", "the stored command name does not lead back to the same command", {**w, "stored_command": fb.get("command"), "expected": expected_name})
+            continue
+        again = fb["config"]
+        diff = [k for k in original if again.get(k, S.UNSET) != original[k]] + [k for k in again if k not in original]
+        if diff:
+            dn = S.declared(cmd.CONFIG_TYPE).get(diff[0])
+            ctx.violation(f"stored/{where}/not-equal/{dn.spec.label.replace('|None', '') if dn else '?'}", f"the configuration stored by the run ({where}) re-creates another configuration",
+                          {**w, "field": diff[0], "before": ascii(original.get(diff[0]))[:200], "after": ascii(again.get(diff[0]))[:200]})
+            continue
+        ctx.reach(f"stored.{where}.equal")
+    if file_outside:
+        ctx.reach(f"stored.file-text.outside-locale-encoding.honoured.{env_name}")
+
+
+def locale_encodable(t: str, enc: str) -> bool:
+    try:
+        t.encode(enc)
+        return True
+    except LookupError:
+        return t.isascii()
+    except UnicodeError:
+        return False
+
+
+async def _noop_run(self: Any) -> int:
+    return 0
+
+
+def stored_child(spec_path: str, out_path: str) -> None:
+    """Runs in the environment under test.  Everything that crosses the process boundary is ASCII JSON in binary files."""
+    from vf import runner
+
+    runner.bootstrap_path()
+    import asyncio
+    import importlib
+    import locale
+    import shutil
+    import sqlite3
+    import traceback
+
+    import gallia.command  # noqa: F401
+    from gallia.cli.gallia import create_parser
+    from gallia.commands.script.rerun import Rerunner, RerunnerConfig
+    from gallia.log import remove_zst_log_handler
+    from gallia.plugins.plugin import CommandTree
+
+    spec = json.loads(Path(spec_path).read_bytes())
+    cmds = _commands()
+    enc = locale.getpreferredencoding(False)
+
+    def encodable(t: str) -> bool:
+        try:
+            t.encode(enc)
+            return True
+        except Exception:
+            return False
+
+    def feed_back(cmd: type, name: str, stored: Any) -> dict[str, Any]:
+        fb: dict[str, Any] = {"command": name}
+        try:
+            parts = str(name).split(".")
+            fb["same_command"] = getattr(importlib.import_module(".".join(parts[:-1])), parts[-1]) is cmd
+        except Exception:
+            fb["same_command"] = False
+        try:
+            fb["config"] = json.loads(cmd.CONFIG_TYPE(**stored).model_dump_json())
+        except Exception as e:
+            fb.update({"error": repr(e)[:400], "type": type(e).__name__, "stage": "instantiate"})
+        return fb
+
+    def parse(cmd: type, path: list[str], case: dict[str, Any], toml_path: Path) -> Any:
+        saved = dict(os.environ)
+        try:
+            for k in list(os.environ):
+                if k.startswith("GALLIA_"):
+                    del os.environ[k]
+            toml_path.write_bytes(case["toml"].encode("utf-8"))  # a TOML file is UTF-8, whatever the locale
+            os.environ["GALLIA_CONFIG"] = str(toml_path)
+            os.environ.update(case["env"])
+            node: Any = cmd
+            for k in reversed(path):
+                node = CommandTree("pruned", {k: node})
+            with contextlib.redirect_stderr(io.StringIO()) as err, contextlib.redirect_stdout(io.StringIO()):
+                try:
+                    _, cfg = create_parser(node.subtree).parse_typed_args(list(case["argv"]))
+                except SystemExit as e:
+                    return {"exit": repr(e.code), "text": err.getvalue()[-400:]}
+            return cfg
+        except Exception as e:
+            return {"raised": repr(e)[:400]}
+        finally:
+            os.environ.clear()
+            os.environ.update(saved)
+
+    def one(case: dict[str, Any]) -> dict[str, Any]:
+        r: dict[str, Any] = {"id": case["id"], "locale_encoding": enc}
+        path, cmd = cmds[case["index"]]
+        if list(path) != case["path"]:
+            r["parse"] = {"raised": "command tree differs between the processes"}
+            return r
+        cfg = parse(cmd, list(path), case, Path(case["dir"]) / "gallia.toml")
+        if isinstance(cfg, dict):
+            r["parse"] = cfg
+            if case.get("toml_control") is not None and case["toml_control"] != case["toml"]:
+                cfg["control_ok"] = not isinstance(parse(cmd, list(path), {**case, "toml": case["toml_control"]}, Path(case["dir"]) / "gallia.toml"), dict)
+            shutil.rmtree(case["dir"], ignore_errors=True)
+            return r
+        r["parse"] = "ok"
+        r["config"] = json.loads(cfg.model_dump_json())
+        r["texts"] = {n: getattr(cfg, n, None) for n in case["texts"]}
+        r["outside_locale"] = [n for n, t in case["texts"].items() if not encodable(t)]
+        try:
+            runcls = type(cmd.__name__, (cmd,), {"run": _noop_run, "__module__": cmd.__module__, "__qualname__": cmd.__qualname__})
+            command = runcls(cfg)
+        except Exception as e:
+            r["construct"] = repr(e)[:300]
+            return r
+        try:
+            r["entry_point"] = {"rc": asyncio.run(asyncio.wait_for(command.entry_point(), 30))}
+        except BaseException as e:  # noqa: BLE001
+            r["entry_point"] = {"raised": repr(e)[:300], "type": type(e).__name__, "where": "".join(traceback.format_tb(e.__traceback__)[-2:])[-600:]}
+        for hdl in list(getattr(command, "log_file_handlers", [])):  # left behind by a run that blew up while finishing
+            with contextlib.suppress(Exception):
+                remove_zst_log_handler(logger_name="gallia", handler=hdl)
+        if "raised" in r["entry_point"] and getattr(command, "_lock_file_fd", None) is not None:
+            with contextlib.suppress(Exception):
+                os.close(command._lock_file_fd)
+        metas = sorted(Path(case["artifacts_base"]).glob("*/run-*/META.json"))
+        r["meta_files"] = len(metas)
+        if len(metas) == 1:
+            r["meta_size"] = metas[0].stat().st_size
+            try:
+                name, stored = Rerunner(RerunnerConfig(file=metas[0])).file()  # how `gallia script rerun --file` reads it
+            except Exception as e:
+                r["meta"] = {"error": repr(e)[:400], "type": type(e).__name__, "stage": "read"}
+            else:
+                r["meta"] = feed_back(cmd, name, stored)
+        try:
+            rows = []
+            if Path(case["db"]).exists():
+                con = sqlite3.connect(case["db"], timeout=5)
+                rows = con.execute("SELECT script, config FROM run_meta").fetchall()
+                con.close()
+            r["db_rows"] = len(rows)
+            if len(rows) == 1:
+                try:
+                    stored = json.loads(rows[0][1])
+                except Exception as e:
+                    r["db"] = {"error": repr(e)[:400], "type": type(e).__name__, "stage": "read"}
+                else:
+                    r["db"] = feed_back(cmd, rows[0][0], stored)
+        except Exception as e:
+            r["db_rows"] = 1
+            r["db"] = {"error": repr(e)[:400], "type": type(e).__name__, "stage": "read"}
+        shutil.rmtree(case["dir"], ignore_errors=True)
+        return r
+
+    with open(out_path, "ab") as f:
+        for case in spec["cases"]:
+            try:
+                r = one(case)
+            except BaseException as e:  # noqa: BLE001  harness problem: no result for this case
+                r = None
+                with contextlib.suppress(Exception):
+                    f.write(json.dumps({"id": -1, "harness_error": repr(e)[:300], "case": case["id"]}).encode("ascii") + b"\n")
+            if r is not None:
+                f.write(json.dumps(r).encode("ascii") + b"\n")
+            f.flush()
+    os._exit(0)  # no interpreter shutdown: a database worker thread left behind by a run that blew up must not keep the child alive
+
+
 TEMPLATE_KEY = re.compile(r"^(?:# )?([A-Za-z_][A-Za-z0-9_]*) = ")
 
 
@@ -1254,6 +1732,8 @@ def run(ctx: Any, params: dict[str, Any]) -> None:
         run_template(ctx)
     elif params["mode"] == "shadow":
         run_shadow(ctx, params)
+    elif params["mode"] == "stored":
+        run_stored(ctx, params)
     else:
         run_command(ctx, params)
 
@@ -1265,6 +1745,10 @@ def replay(ctx: Any, witness: dict[str, Any]) -> None:
         return
     if witness.get("variant") == "template-key":
         run_template(ctx)
+        return
+    if witness.get("variant") == "stored-run":
+        idx = [i for i, (path, _) in enumerate(_commands()) if " ".join(path) == witness["command"]]
+        run_stored(ctx, {"mode": "stored", "env": witness["environment"], "part": 0, "parts": 1, "cases": max(STORED_CASES_THOROUGH, int(witness.get("stored_case", 0)) + 1), "indices": idx})
         return
     for path, cmd in _commands():
         if " ".join(path) == witness["command"]:
@@ -1283,3 +1767,5 @@ if __name__ == "__main__":
 
     if len(_s.argv) == 3 and _s.argv[1] == "--reload-child":
         reload_child(_s.argv[2])
+    if len(_s.argv) == 4 and _s.argv[1] == "--stored-child":
+        stored_child(_s.argv[2], _s.argv[3])
